@@ -28,7 +28,9 @@ S = M.VStr
 Q = M.VSeq
 
 INTS = [C(0), C(1), C(-1), C(2), C(7), C(255, "hex"), C(8, "oct"), C(5, "bin"), C(-3, "hex"),
-        C((1 << 63) - 1), C(1 << 63, "hex"), C((1 << 64) - 1, "hex"), C(-(1 << 63)), C(3037000500), C(4294967296, "hex")]
+        C((1 << 63) - 1), C(1 << 63, "hex"), C((1 << 64) - 1, "hex"), C(-(1 << 63)), C(3037000500), C(4294967296, "hex"),
+        # pairs whose sum, difference or product lands exactly on an end of the range
+        C(-(1 << 62)), C(-(1 << 63) + 1), C(1 << 62), C((1 << 63) + 1, "hex"), C(-(1 << 32), "hex"), C(1 << 31)]
 NAMED = [C(1, "bool"), C(0, "bool"), C(2, "T_*"), C(3, "T_*")]
 STRS = [S(b""), S(b"a"), S(b"ab"), S(b"abc"), S(b"ba"), S(b"bc"), S(b"foobar"), S(b"bar"), S(b"foo"), S(b"a\0b"), S(b"\0"),
         S(b"\xff\x80"), S(b"^a"), S(b"b$"), S(b"o+b"), S(b"a.c")]
